@@ -18,8 +18,9 @@ META = dict(
     bounds=dict(quick='pwl_calibration_fn: 2-4 keypoints (incl. keypoint_input_parameters=None), units 1-2, every '
                       'monotonicity/clamp/cyclic/missing mode, 2-D and 3-D parameter shapes; CDF / cdf_fn: input_dim 2-4, 2-3 basis '
                       'functions, units 1-2, relu6/sigmoid, mean/geometric_mean/none, sparsity 1-2, all scaling types, exp transform; '
-                      'all real parameters and inputs', thorough='5 keypoints, input_dim 4 with units 4'),
-    outside=['IEEE-754 rounding/overflow; sigmoid saturating to exactly 0 or 1; softmax underflow other than the modelled one (one '
+                      'all real parameters and inputs; float32 semantics (IEEE, round to nearest even) for cdf_fn and CDF with one input, '
+                      'one keypoint, one unit, relu6: every finite float32 input / location / non-negative scaling up to 2^100', thorough='5 keypoints, input_dim 4 with units 4'),
+    outside=['IEEE-754 rounding/overflow except on the one-element float32 cases (range decided, monotonicity a stretch query); sigmoid saturating to exactly 0 or 1; softmax underflow other than the modelled one (one '
              'keypoint share exactly 0 in pwl_calibration_fn, division by the zero length executed as IEEE)', 'upper bound of the geometric mean beyond '
              '1+epsilon (the epsilon is documented)'],
     assumptions=['contracts: softmax outputs positive and sum to 1; sigmoid in (0,1) and monotone; exp > 0 monotone; log monotone',
